@@ -121,4 +121,34 @@ var plans = map[string]Plan{
 			{Name: "mutated", Pkg: "./checks/c13", Run: "^TestMutated$", Rapid: true, Shards: [2]int{4, 16}, Checks: [2]int{600, 4000}, Weight: 2},
 		},
 	},
+	"C07": {
+		Level: "exploration",
+		Rule: "cases are (multi-file program, resolution order): programs from the constructive generator (forward/backward/cross-file references, typedef chains incl. chains through a struct that refers back, diamond and cyclic includes, constants/defaults of every type, service inheritance; definitions shuffled in each file) x (a) a drawn order for every map the compiler iterates (includes, types, constants, services of every module) through compile.CompileWithLinkOrder plus 3 plain Compile repetitions, (b) ALL permutations of each small module's types (<=6), constants, services, includes (<=4), (c) the same for deliberately invalidated programs. " +
+			"Oracle: canonical dump of the compiled Module graph == dump computed from the model's by-construction bindings (typedef target and root, field ids/types/requiredness, evaluated constants and defaults, enum values, service parents, shared include identity), and identical dumps / identical success-or-failure across all orders. " +
+			"Non-trivial: the program has a typedef chain, a cross-file typedef, a typedef-struct cycle or a diamond include (or is invalidated). Distinct: SHA-256 of (program JSON, orders).",
+		Assumptions: []string{
+			"compile.CompileWithLinkOrder (verif hook) only chooses one of the orders Go's map iteration could produce: it pre-links in the chosen order and then runs the unmodified link pass; its agreement with plain Compile is itself checked (natural repetitions)",
+			"internal/idlmodel reference semantics (scoping by construction, constant casting rules as documented in compile/constant_value.go)",
+			"dotted local names next to include-qualified names are not generated",
+		},
+		Units: []Unit{
+			{Name: "orders", Pkg: "./checks/c07", Run: "^TestOrders$", Rapid: true, Shards: [2]int{6, 12}, Checks: [2]int{600, 8000}},
+			{Name: "all-orders", Pkg: "./checks/c07", Run: "^TestAllOrders$", Rapid: true, Shards: [2]int{6, 16}, Checks: [2]int{50, 500}},
+			{Name: "invalid", Pkg: "./checks/c07", Run: "^TestInvalid$", Rapid: true, Shards: [2]int{4, 8}, Checks: [2]int{500, 6000}},
+		},
+	},
+	"C09": {
+		Level: "exploration",
+		Rule: "cases are single-file programs whose numeric literals (decimal, hex, signed) are drawn at and next to 0, +-1, +-2^7, +-2^15, +-2^31, 2^32, +-2^63 in every numeric position (explicit / implicit enum values, explicit / implicit-negative field ids, i8/i16/i32/i64 constants and defaults, enum defaults by value), strict and non-strict, with injected duplicate ids / names / items and constant / service cycles of length 1..3; plus well-formed multi-file programs from the constructive generator. " +
+			"Oracle (two-directional): a source violating range / uniqueness / acyclicity must be rejected; an accepted source must carry exactly the numbers written (read from FieldSpec.ID, EnumItem.Value, linked constants and defaults); clearly valid sources must be accepted. " +
+			"Non-trivial: a literal within 1 of a type boundary, or a violation present. Distinct: SHA-256 of the source text and mode.",
+		Assumptions: []string{
+			"'clearly valid' = no violation and only constructs thriftrw documents it accepts (explicit ids >= 1 ...); other violation-free sources may be rejected without alarm",
+			"compile runs in-process: a fatal stack overflow in the compiler kills the shard and is reported from its log",
+		},
+		Units: []Unit{
+			{Name: "numeric", Pkg: "./checks/c09", Run: "^TestNumeric$", Rapid: true, Shards: [2]int{8, 16}, Checks: [2]int{5000, 50000}},
+			{Name: "safe-programs", Pkg: "./checks/c09", Run: "^TestSafePrograms$", Rapid: true, Shards: [2]int{4, 8}, Checks: [2]int{1000, 10000}},
+		},
+	},
 }
